@@ -111,4 +111,217 @@ example : HasDerivAt (fun t => C08.exponentialLogProb 3 (-1 / 2) (([0, 0, 1, 2, 
   hasDerivAt_exponentialLogProb_height 3 (-1 / 2) [0, 0, 1, 2, 4] 3 (by simp) (by norm_num) (by norm_num)
     notie_example 3 (by simp [sorted_example, C08.times]) (by simp [sorted_example, C08.times])
 
+/-! ## GMRF: C12's closed form IS the C20 definition (plain, weighted, time-aware) -/
+
+theorem diffSq_eq_diffsRev : ∀ x : List ℝ, C20.diffSq x = (diffsRev x).map fun d => d * d
+  | [] => rfl
+  | [_] => rfl
+  | a :: b :: rest => by
+    have ih := diffSq_eq_diffsRev (b :: rest)
+    simp only [C20.diffSq, diffsRev, List.map_cons] at ih ⊢
+    rw [ih]
+
+/-- **gmrfLogDensity_eq_C20** — the closed form the C12 theorems `hasDerivAt_gmrf_field / _precision` are stated about
+equals `TT.C20.gmrfLogProb` on `TT.C20.scaledDiffSq` (the model compared with `GMRF._call` by C20), for every
+divisor list `w` — in particular the time-aware weights. -/
+theorem gmrfLogDensity_eq_C20 (x : List ℝ) (τ c : ℝ) (w : Option (List ℝ)) :
+    gmrfLogDensity x τ w c = C20.gmrfLogProb c τ (C20.scaledDiffSq w x) x.length := by
+  unfold gmrfLogDensity C20.gmrfLogProb C20.scaledDiffSq
+  simp only [trans_log_real, Int.cast_natCast]
+  cases w with
+  | none => simp only [diffSq_eq_diffsRev]
+  | some w => simp only [diffSq_eq_diffsRev]
+
+/-- **GMRF (C20 definition), derivative in each field entry** — plain (`w = none`), weighted, or time-aware
+(`w = some (C20.timeAwareWeights rescale internal)`); every divisor non-zero, `τ ≠ 0`. -/
+theorem hasDerivAt_gmrfLogProb_field (x : List ℝ) (τ c : ℝ) (w : Option (List ℝ)) (k : Nat) (hk : k < x.length)
+    (hτ : τ ≠ 0) (hw : ∀ l, w = some l → ∀ v ∈ l, v ≠ 0) :
+    HasDerivAt (fun t => C20.gmrfLogProb c τ (C20.scaledDiffSq w (x.set k t)) x.length)
+      (partialD (gmrfE (vars 0 x.length) (var x.length) (w.map fun l => vars (x.length + 2) l.length)
+          (var (x.length + 1)))
+        (envOf (x ++ ([τ, c] ++ (w.getD [])))) k) x[k] := by
+  have h := hasDerivAt_gmrf_field x τ c w k hk hτ hw
+  have hf : (fun t => gmrfLogDensity (x.set k t) τ w c)
+      = fun t => C20.gmrfLogProb c τ (C20.scaledDiffSq w (x.set k t)) x.length := by
+    funext t; rw [gmrfLogDensity_eq_C20, List.length_set]
+  rwa [hf] at h
+
+/-- **GMRF (C20 definition), derivative in the precision.** -/
+theorem hasDerivAt_gmrfLogProb_precision (x : List ℝ) (τ c : ℝ) (w : Option (List ℝ))
+    (hτ : τ ≠ 0) (hw : ∀ l, w = some l → ∀ v ∈ l, v ≠ 0) :
+    HasDerivAt (fun t => C20.gmrfLogProb c t (C20.scaledDiffSq w x) x.length)
+      (partialD (gmrfE (vars 0 x.length) (var x.length) (w.map fun l => vars (x.length + 2) l.length)
+          (var (x.length + 1)))
+        (envOf (x ++ ([τ, c] ++ (w.getD [])))) x.length) τ := by
+  have h := hasDerivAt_gmrf_precision x τ c w hτ hw
+  have hf : (fun t => gmrfLogDensity x t w c) = fun t => C20.gmrfLogProb c t (C20.scaledDiffSq w x) x.length := by
+    funext t; rw [gmrfLogDensity_eq_C20]
+  rwa [hf] at h
+
+/-- **time-aware GMRF** (F19-repaired weights: mean of adjacent durations of the sorted `[0] ++ internal heights`,
+`/ root` when `rescale`): derivative in each field entry and in the precision, wherever no weight vanishes (no two
+consecutive zero-length inter-coalescent intervals). -/
+theorem hasDerivAt_gmrf_timeaware (x internal : List ℝ) (rescale : Bool) (τ c : ℝ) (k : Nat) (hk : k < x.length)
+    (hτ : τ ≠ 0) (hw : ∀ v ∈ C20.timeAwareWeights rescale internal, v ≠ 0) :
+    HasDerivAt (fun t => C20.gmrfLogProb c τ (C20.scaledDiffSq (some (C20.timeAwareWeights rescale internal))
+        (x.set k t)) x.length)
+      (partialD (gmrfE (vars 0 x.length) (var x.length)
+          (some (vars (x.length + 2) (C20.timeAwareWeights rescale internal).length)) (var (x.length + 1)))
+        (envOf (x ++ ([τ, c] ++ C20.timeAwareWeights rescale internal))) k) x[k] ∧
+    HasDerivAt (fun t => C20.gmrfLogProb c t (C20.scaledDiffSq (some (C20.timeAwareWeights rescale internal)) x)
+        x.length)
+      (partialD (gmrfE (vars 0 x.length) (var x.length)
+          (some (vars (x.length + 2) (C20.timeAwareWeights rescale internal).length)) (var (x.length + 1)))
+        (envOf (x ++ ([τ, c] ++ C20.timeAwareWeights rescale internal))) x.length) τ := by
+  have hw' : ∀ l, some (C20.timeAwareWeights rescale internal) = some l → ∀ v ∈ l, v ≠ 0 := by
+    intro l hl v hv; cases hl; exact hw v hv
+  exact ⟨by simpa using hasDerivAt_gmrfLogProb_field x τ c _ k hk hτ hw',
+    by simpa using hasDerivAt_gmrfLogProb_precision x τ c _ hτ hw'⟩
+
+/-- the hypotheses are met: field `(1, -2, 3)`, precision 2, weights `(1/2, 4)` -/
+example : HasDerivAt (fun t => C20.gmrfLogProb 5 2 (C20.scaledDiffSq (some [1 / 2, 4]) (([1, -2, 3] : List ℝ).set 1 t)) 3)
+    (partialD (gmrfE (vars 0 3) (var 3) (some (vars 5 2)) (var 4)) (envOf ([1, -2, 3, 2, 5, 1 / 2, 4] : List ℝ)) 1)
+    (-2) := by
+  have h := hasDerivAt_gmrfLogProb_field [1, -2, 3] 2 5 (some [1 / 2, 4]) 1 (by simp) (by norm_num)
+    (by intro l hl v hv; simp at hl; subst hl; simp at hv; rcases hv with rfl | rfl <;> norm_num)
+  simpa using h
+
+/-! ## GMRFGammaIntegrated (`TT.C20.gammaIntegratedLogProb`) -/
+
+/-- the C20 definition is the builder's closed form -/
+theorem gintClosed_eq_C20 (x : List ℝ) (w : Option (List ℝ)) (c a b lgA lgAd : ℝ) :
+    gintClosed x w c a b lgA lgAd = C20.gammaIntegratedLogProb c a b lgA lgAd (C20.scaledDiffSq w x) x.length := by
+  unfold gintClosed C20.gammaIntegratedLogProb C20.scaledDiffSq
+  simp only [trans_log_real, Int.cast_natCast]
+  cases w with
+  | none => simp only [diffSq_eq_diffsRev]
+  | some w => simp only [diffSq_eq_diffsRev]
+
+/-- the builder on the variable layout `field ++ [c, shape, rate, lgA, lgAd] ++ weights` -/
+theorem gint_eval_env (y : List ℝ) (w : Option (List ℝ)) (c a b lgA lgAd : ℝ) :
+    eval (envOf (y ++ ([c, a, b, lgA, lgAd] ++ (w.getD []))))
+      (gintE (vars 0 y.length) (w.map fun l => vars (y.length + 5) l.length) (var y.length) (var (y.length + 1))
+        (var (y.length + 2)) (var (y.length + 3)) (var (y.length + 4)))
+      = gintClosed y w c a b lgA lgAd := by
+  rw [eval_gintE, map_eval_vars_envOf_prefix]
+  have hv : ∀ (j : Nat) (v : ℝ), ([c, a, b, lgA, lgAd] ++ (w.getD []))[j]? = some v →
+      eval (envOf (y ++ ([c, a, b, lgA, lgAd] ++ (w.getD [])))) (var (y.length + j)) = v := by
+    intro j v hjv
+    simp only [eval, envOf, List.getD_eq_getElem?_getD]
+    rw [List.getElem?_append_right (by omega), Nat.add_sub_cancel_left, hjv]
+    rfl
+  rw [show var y.length = var (y.length + 0) from rfl, hv 0 c (by simp), hv 1 a (by simp), hv 2 b (by simp),
+    hv 3 lgA (by simp), hv 4 lgAd (by simp)]
+  cases w with
+  | none => rfl
+  | some l =>
+    have h3 : (vars (y.length + 5) l.length).map (eval (envOf (y ++ ([c, a, b, lgA, lgAd] ++ l)))) = l := by
+      have := map_eval_vars_envOf (y ++ [c, a, b, lgA, lgAd]) l
+      simpa [List.append_assoc] using this
+    simp only [Option.map_some, Option.getD_some, h3]
+
+theorem sq_sum_nonneg (x : List ℝ) (w : Option (List ℝ)) (hw : ∀ l, w = some l → ∀ v ∈ l, 0 < v) :
+    0 ≤ (match w with
+      | none => (diffsRev x).map fun d => d * d
+      | some w => List.zipWith (fun a b => a / b) ((diffsRev x).map fun d => d * d) w).sum := by
+  cases w with
+  | none =>
+    apply List.sum_nonneg
+    intro v hv
+    obtain ⟨d, _, rfl⟩ := List.mem_map.mp hv
+    exact mul_self_nonneg d
+  | some l =>
+    apply List.sum_nonneg
+    have : ∀ v ∈ List.zipWith (fun a b => a / b) ((diffsRev x).map fun d => d * d) l, 0 ≤ v := by
+      refine mem_zipWith fun a ha b hb => ?_
+      obtain ⟨d, _, rfl⟩ := List.mem_map.mp ha
+      exact div_nonneg (mul_self_nonneg d) (hw l rfl b hb).le
+    exact this
+
+theorem gint_defined_env (y : List ℝ) (w : Option (List ℝ)) (c a b lgA lgAd : ℝ) (hb : 0 < b)
+    (hw : ∀ l, w = some l → ∀ v ∈ l, 0 < v) :
+    Defined (envOf (y ++ ([c, a, b, lgA, lgAd] ++ (w.getD []))))
+      (gintE (vars 0 y.length) (w.map fun l => vars (y.length + 5) l.length) (var y.length) (var (y.length + 1))
+        (var (y.length + 2)) (var (y.length + 3)) (var (y.length + 4))) := by
+  have hbv : eval (envOf (y ++ ([c, a, b, lgA, lgAd] ++ (w.getD [])))) (var (y.length + 2)) = b := by
+    simp [eval, envOf, List.getD_eq_getElem?_getD]
+  have hwl : ∀ l, w = some l →
+      (vars (y.length + 5) l.length).map (eval (envOf (y ++ ([c, a, b, lgA, lgAd] ++ l)))) = l := by
+    intro l _
+    have := map_eval_vars_envOf (y ++ [c, a, b, lgA, lgAd]) l
+    simpa [List.append_assoc] using this
+  refine defined_gintE _ _ _ _ _ _ _ _ (defined_vars _ _ _) trivial trivial trivial (by rw [hbv]; exact hb.ne')
+    trivial trivial ?_ ?_
+  · intro l' hl' e he
+    cases w with
+    | none => simp at hl'
+    | some l =>
+      simp only [Option.map_some, Option.some.injEq] at hl'
+      subst hl'
+      refine ⟨defined_vars _ _ _ e he, ?_⟩
+      have hmem : eval (envOf (y ++ ([c, a, b, lgA, lgAd] ++ l))) e ∈
+          (vars (y.length + 5) l.length).map (eval (envOf (y ++ ([c, a, b, lgA, lgAd] ++ l)))) :=
+        List.mem_map_of_mem he
+      rw [hwl l rfl] at hmem
+      exact (hw l rfl _ hmem).ne'
+  · -- the argument of the logarithm is `Σ sq / 2 + rate > 0`
+    have hval := sq_sum_nonneg y w hw
+    rw [eval_gint_arg, hbv, map_eval_vars_envOf_prefix]
+    have harg : (w.map fun l => vars (y.length + 5) l.length).map
+          (fun l' => l'.map (eval (envOf (y ++ ([c, a, b, lgA, lgAd] ++ (w.getD []))))))
+        = w := by
+      cases w with
+      | none => rfl
+      | some l => simp only [Option.map_some, Option.getD_some, hwl l rfl]
+    rw [harg]
+    exact (add_pos_of_nonneg_of_pos (div_nonneg hval (by norm_num)) hb).ne'
+
+/-- **GMRFGammaIntegrated, derivative in each field entry** (plain / weighted / time-aware divisors `> 0`,
+`rate > 0`). -/
+theorem hasDerivAt_gammaIntegrated_field (x : List ℝ) (w : Option (List ℝ)) (c a b lgA lgAd : ℝ) (k : Nat)
+    (hk : k < x.length) (hb : 0 < b) (hw : ∀ l, w = some l → ∀ v ∈ l, 0 < v) :
+    HasDerivAt (fun t => C20.gammaIntegratedLogProb c a b lgA lgAd (C20.scaledDiffSq w (x.set k t)) x.length)
+      (partialD (gintE (vars 0 x.length) (w.map fun l => vars (x.length + 5) l.length) (var x.length)
+          (var (x.length + 1)) (var (x.length + 2)) (var (x.length + 3)) (var (x.length + 4)))
+        (envOf (x ++ ([c, a, b, lgA, lgAd] ++ (w.getD [])))) k) x[k] := by
+  have hk' : k < (x ++ ([c, a, b, lgA, lgAd] ++ (w.getD []))).length := by simp; omega
+  have h := hasDerivAt_of_eval' _ _ k
+    (fun t => C20.gammaIntegratedLogProb c a b lgA lgAd (C20.scaledDiffSq w (x.set k t)) x.length)
+    (gint_defined_env x w c a b lgA lgAd hb hw)
+    (fun t => by
+      rw [update_envOf _ _ hk', List.set_append_left _ _ hk]
+      have := gint_eval_env (x.set k t) w c a b lgA lgAd
+      simp only [List.length_set] at this
+      rw [this, gintClosed_eq_C20, List.length_set])
+  rw [envOf_getElem _ _ hk'] at h
+  simpa [List.getElem_append_left hk] using h
+
+/-- **GMRFGammaIntegrated, derivative in the rate hyper-parameter.** -/
+theorem hasDerivAt_gammaIntegrated_rate (x : List ℝ) (w : Option (List ℝ)) (c a b lgA lgAd : ℝ)
+    (hb : 0 < b) (hw : ∀ l, w = some l → ∀ v ∈ l, 0 < v) :
+    HasDerivAt (fun t => C20.gammaIntegratedLogProb c a t lgA lgAd (C20.scaledDiffSq w x) x.length)
+      (partialD (gintE (vars 0 x.length) (w.map fun l => vars (x.length + 5) l.length) (var x.length)
+          (var (x.length + 1)) (var (x.length + 2)) (var (x.length + 3)) (var (x.length + 4)))
+        (envOf (x ++ ([c, a, b, lgA, lgAd] ++ (w.getD [])))) (x.length + 2)) b := by
+  have hk' : x.length + 2 < (x ++ ([c, a, b, lgA, lgAd] ++ (w.getD []))).length := by simp
+  have h := hasDerivAt_of_eval' _ _ (x.length + 2)
+    (fun t => C20.gammaIntegratedLogProb c a t lgA lgAd (C20.scaledDiffSq w x) x.length)
+    (gint_defined_env x w c a b lgA lgAd hb hw)
+    (fun t => by
+      rw [update_envOf _ _ hk', List.set_append_right _ _ (by omega)]
+      have := gint_eval_env x w c a t lgA lgAd
+      simp only [Nat.add_sub_cancel_left, List.cons_append, List.set_cons_succ, List.set_cons_zero] at this ⊢
+      rw [this, gintClosed_eq_C20])
+  rw [envOf_getElem _ _ hk'] at h
+  simpa using h
+
+/-- the hypotheses are met: field `(1, -2, 3)`, weights `(1/2, 4)`, shape 2, rate 3 -/
+example : HasDerivAt
+    (fun t => C20.gammaIntegratedLogProb 5 2 3 0 0 (C20.scaledDiffSq (some [1 / 2, 4]) (([1, -2, 3] : List ℝ).set 1 t)) 3)
+    (partialD (gintE (vars 0 3) (some (vars 8 2)) (var 3) (var 4) (var 5) (var 6) (var 7))
+      (envOf ([1, -2, 3, 5, 2, 3, 0, 0, 1 / 2, 4] : List ℝ)) 1) (-2) := by
+  have h := hasDerivAt_gammaIntegrated_field [1, -2, 3] (some [1 / 2, 4]) 5 2 3 0 0 1 (by simp) (by norm_num)
+    (by intro l hl v hv; simp at hl; subst hl; simp at hv; rcases hv with rfl | rfl <;> norm_num)
+  simpa using h
+
 end TTProps.C12_Coalescent
